@@ -26,6 +26,7 @@ Inductive sel := SPrior      (* Prior *)
                | SInfo       (* (Prior, float, int, tuple, ConfigException) *)
                | SParam      (* (Prior, float, tuple) *)
                | STuple      (* TuplePrior *)
+               | SConfig     (* ConfigException: matches nothing that the histories can build *)
                | SModelRec.  (* Model, ignore_children=False *)
 (* class arguments of direct_tuples_with_type *)
 Inductive dsel := DPrior | DTuple | DPriorModel | DFloat | DAbstractModel.
@@ -47,24 +48,30 @@ Record obj := mkObj {
   okind : kind;
   oattrs : list (string * value);     (* public part of __dict__, insertion order *)
   onitems : nat;                      (* Collection.item_number *)
+  oidn : nat;                         (* ModelObject.id of the object *)
   ofrozen : bool;                     (* _is_frozen *)
   ocache : list (ckey * cval) }.      (* _frozen_cache *)
 
-Record state := mkState { heap : list obj; inflight : list nat }.
+(* ptab: the Prior objects (index = object identity) with their CURRENT id and their limits;
+   `Collection.__setitem__` rewrites ids, deepcopy creates new Prior objects with the same id *)
+Record state := mkState { heap : list obj; inflight : list nat; ptab : list (nat * (Z * Z)) }.
 
 Record config := mkConfig {
   classes : list (list string);       (* constructor argument names per class id *)
-  priors : list (nat * (Z * Z));      (* prior id -> (lower, upper) limits *)
+  priors : list (nat * (Z * Z));      (* initial Prior objects: (id, (lower, upper)) *)
   cleanup : bool }.                   (* does the recursion wrapper clean up on exceptions? *)
 
-(* the pinned code: no try/finally in DynamicRecursionCache.__call__ *)
+(* /repo since 5afd9f1: try/finally in DynamicRecursionCache.__call__ *)
 Definition wrapper_cleanup : bool := true.
+(* the pinned code: Model.gaussian_prior_model_for_arguments starts with self.unfreeze() *)
+Definition derive_thaws : bool := true.
 
 Definition FUEL : nat := 12.
 
 (* ------------------------------------------------------------------ equality *)
 Definition sel_eqb (a b : sel) : bool :=
-  match a, b with SPrior, SPrior | SInfo, SInfo | SParam, SParam | STuple, STuple | SModelRec, SModelRec => true
+  match a, b with SPrior, SPrior | SInfo, SInfo | SParam, SParam | STuple, STuple | SModelRec, SModelRec
+                | SConfig, SConfig => true
                 | _, _ => false end.
 Definition dsel_eqb (a b : dsel) : bool :=
   match a, b with DPrior, DPrior | DTuple, DTuple | DPriorModel, DPriorModel | DFloat, DFloat
@@ -135,20 +142,25 @@ Fixpoint update {A} (l : list A) (i : nat) (x : A) : list A :=
   end.
 
 Definition get (st : state) (o : nat) : option obj := nth_error (heap st) o.
-Definition put (st : state) (o : nat) (ob : obj) : state := mkState (update (heap st) o ob) (inflight st).
+Definition put (st : state) (o : nat) (ob : obj) : state := mkState (update (heap st) o ob) (inflight st) (ptab st).
+(* current id / limits of a Prior object *)
+Definition pid_of (st : state) (p : nat) : nat := match nth_error (ptab st) p with Some (i, _) => i | None => p end.
+Definition plim_of (st : state) (p : nat) : Z * Z := match nth_error (ptab st) p with Some (_, l) => l | None => (0, 0)%Z end.
 
 (* what queries may read of an object: its kind and public attributes (never flag or cache) *)
 Definition view (st : state) (o : nat) : option (kind * list (string * value)) :=
   match get st o with Some ob => Some (okind ob, oattrs ob) | None => None end.
 
 Definition with_attrs (ob : obj) (a : list (string * value)) : obj :=
-  mkObj (okind ob) a (onitems ob) (ofrozen ob) (ocache ob).
+  mkObj (okind ob) a (onitems ob) (oidn ob) (ofrozen ob) (ocache ob).
 Definition with_nitems (ob : obj) (n : nat) : obj :=
-  mkObj (okind ob) (oattrs ob) n (ofrozen ob) (ocache ob).
+  mkObj (okind ob) (oattrs ob) n (oidn ob) (ofrozen ob) (ocache ob).
 Definition with_frozen (ob : obj) (b : bool) : obj :=
-  mkObj (okind ob) (oattrs ob) (onitems ob) b (ocache ob).
+  mkObj (okind ob) (oattrs ob) (onitems ob) (oidn ob) b (ocache ob).
 Definition with_cache (ob : obj) (c : list (ckey * cval)) : obj :=
-  mkObj (okind ob) (oattrs ob) (onitems ob) (ofrozen ob) c.
+  mkObj (okind ob) (oattrs ob) (onitems ob) (oidn ob) (ofrozen ob) c.
+Definition with_oidn (ob : obj) (i : nat) : obj :=
+  mkObj (okind ob) (oattrs ob) (onitems ob) i (ofrozen ob) (ocache ob).
 
 Definition is_pm_kind (k : kind) : bool := match k with KTuple => false | _ => true end.
 
@@ -172,17 +184,30 @@ Definition sort_by {A} (le : A -> A -> bool) (l : list A) : list A :=
   fold_left (fun acc x => insert_by le x acc) l [].
 
 Definition leaf_pid (l : leaf) : nat := match l with LPrior p => p | _ => 0 end.
-Definition item_pid_le (a b : item) : bool := Nat.leb (leaf_pid (snd a)) (leaf_pid (snd b)).
+(* priors order, compare and hash by their CURRENT id (idf : Prior object -> id) *)
+Definition leaf_id (idf : nat -> nat) (l : leaf) : nat := match l with LPrior p => idf p | _ => 0 end.
+Definition item_id_le (idf : nat -> nat) (a b : item) : bool := Nat.leb (leaf_id idf (snd a)) (leaf_id idf (snd b)).
+Definition leaf_same (idf : nat -> nat) (a b : leaf) : bool :=
+  match a, b with
+  | LPrior p, LPrior q => Nat.eqb (idf p) (idf q)
+  | LConst c, LConst d => Z.eqb c d
+  | LObj o, LObj p => Nat.eqb o p
+  | _, _ => false
+  end.
 Definition str_le (a b : string) : bool :=
   match String.compare a b with Gt => false | _ => true end.
 
-(* list({t[1]: t for t in l}.values()): position of the first occurrence, value of the last *)
-Fixpoint dict_put (it : item) (d : list item) : list item :=
+(* list({t[1]: t for t in l}.values()): position of the first occurrence, value of the last;
+   the KEY object stays the first one *)
+Fixpoint dict_put (idf : nat -> nat) (it : item) (d : list item) : list item :=
   match d with
   | [] => [it]
-  | it' :: r => if leaf_eqb (snd it) (snd it') then it :: r else it' :: dict_put it r
+  | it' :: r => if leaf_same idf (snd it) (snd it') then (fst it, snd it) :: r else it' :: dict_put idf it r
   end.
-Definition dedup_last (l : list item) : list item := fold_left (fun d it => dict_put it d) l [].
+Definition dedup_last (idf : nat -> nat) (l : list item) : list item := fold_left (fun d it => dict_put idf it d) l [].
+(* answers name priors by their current id *)
+Definition out_leaf (idf : nat -> nat) (l : leaf) : leaf := match l with LPrior p => LPrior (idf p) | x => x end.
+Definition out_items (idf : nat -> nat) (l : list item) : list item := map (fun it : item => (fst it, out_leaf idf (snd it))) l.
 
 Definition last_name (p : path) : path :=
   match rev p with [] => [""] | x :: _ => [x] end.
@@ -190,7 +215,7 @@ Definition item_name (it : item) : string := match fst it with x :: _ => x | [] 
 Definition item_oid (it : item) : nat := match snd it with LObj o => o | _ => 0 end.
 
 (* ------------------------------------------------------------------ the walk *)
-Definition sel_prior (s : sel) : bool := match s with STuple | SModelRec => false | _ => true end.
+Definition sel_prior (s : sel) : bool := match s with STuple | SModelRec | SConfig => false | _ => true end.
 Definition sel_float (s : sel) : bool := match s with SInfo | SParam => true | _ => false end.
 Definition sel_obj (s : sel) (k : kind) : bool := match s, k with STuple, KTuple => true | _, _ => false end.
 (* matched but, with ignore_children=False, searched further *)
@@ -211,12 +236,13 @@ Fixpoint walk_list (f : value -> wres) (l : list (string * value)) : list item :
       end
   end.
 
-Fixpoint walk_val (st : state) (n : nat) (s : sel) (v : value) : wres :=
+(* `vis` = objects whose walk is in progress (their ids sit in the recursion cache) *)
+Fixpoint walk_val (st : state) (n : nat) (s : sel) (vis : list nat) (v : value) : wres :=
   match v with
   | VPrior p => WList (if sel_prior s then [([], LPrior p)] else [])
   | VConst c => WList (if sel_float s then [([], LConst c)] else [])
   | VRef o =>
-      if memb o (inflight st) then WPromise
+      if memb o (inflight st) || memb o vis then WPromise
       else match n with
            | 0 => WList []
            | S n' =>
@@ -225,13 +251,13 @@ Fixpoint walk_val (st : state) (n : nat) (s : sel) (v : value) : wres :=
                | Some ob =>
                    if sel_obj s (okind ob) then WList [([], LObj o)]
                    else WList ((if sel_also s (okind ob) then [([], LObj o)] else [])
-                               ++ walk_list (walk_val st n' s) (oattrs ob))
+                               ++ walk_list (walk_val st n' s (o :: vis)) (oattrs ob))
                end
            end
   end.
 
 Definition walk_top (st : state) (s : sel) (o : nat) : cval :=
-  match walk_val st FUEL s (VRef o) with WList l => CList l | WPromise => CPromise end.
+  match walk_val st FUEL s [] (VRef o) with WList l => CList l | WPromise => CPromise end.
 
 (* direct_tuples_with_type *)
 Definition direct_match (st : state) (d : dsel) (v : value) : option leaf :=
@@ -310,11 +336,11 @@ Definition body_attr (o : nat) (s : sel) : M cval :=
 Definition call_attr (o : nat) (s : sel) (form : nat) : M cval := cached o (KAttr s form) (body_attr o s).
 
 Definition body_unique (o : nat) : M cval :=
-  c <- call_attr o SPrior 0 ;; l <- as_list c ;; ret (CList (dedup_last l)).
+  c <- call_attr o SPrior 0 ;; l <- as_list c ;; idf <- gets pid_of ;; ret (CList (dedup_last idf l)).
 Definition call_unique (o : nat) : M cval := cached o KUnique (body_unique o).
 
 Definition body_ordered (o : nat) : M cval :=
-  c <- call_unique o ;; l <- as_list c ;; ret (CList (sort_by item_pid_le l)).
+  c <- call_unique o ;; l <- as_list c ;; idf <- gets pid_of ;; ret (CList (sort_by (item_id_le idf) l)).
 Definition call_ordered (o : nat) : M cval := cached o KOrdered (body_ordered o).
 
 Definition body_direct (o : nat) (d : dsel) : M cval :=
@@ -331,9 +357,12 @@ Inductive answer :=
 | ANat (n : nat)
 | AItems (l : list item)
 | AInst (i : inst)
-| AInfo (a : list item) (n : nat) (b : list (path * option nat * nat)).
+| AInfo (a : list item) (n : nat) (b : list (path * option nat * nat))
+| AGroups (g : list (list path)).
 
-Inductive query := QCount | QPaths | QOrdered | QInstance (v : list Z) | QInfo | QModels (cls : option nat) (izd : bool).
+Inductive query := QCount | QPaths | QOrdered | QInstance (v : list Z) | QInfo | QModels (cls : option nat) (izd : bool)
+                 | QUnit (quarters : list Z)      (* instance_from_unit_vector([q/4 ...]) *)
+                 | QAllPaths.
 
 Definition q_count (o : nat) : M nat :=
   c <- call_unique o ;; l <- as_list c ;; ret (List.length l).
@@ -380,19 +409,31 @@ Definition call_key (o : nat) (k : ckey) : M cval :=
   | KMwt c z => call_mwt o c z
   end.
 
+Definition q_paths_raw (o : nat) : M (list item) :=
+  c <- call_pit o SPrior 0 ;; l <- as_list c ;; idf <- gets pid_of ;; ret (sort_by (item_id_le idf) l).
 Definition q_paths (o : nat) : M (list item) :=
-  c <- call_pit o SPrior 0 ;; l <- as_list c ;; ret (sort_by item_pid_le l).
+  l <- q_paths_raw o ;; idf <- gets pid_of ;; ret (out_items idf l).
 
-Definition q_ordered (o : nat) : M (list item) :=
+Definition q_ordered_raw (o : nat) : M (list item) :=
   c <- call_ordered o ;; as_list c.
+Definition q_ordered (o : nat) : M (list item) :=
+  l <- q_ordered_raw o ;; idf <- gets pid_of ;; ret (out_items idf l).
 
-Definition args := list (nat * Z).
+(* {prior: value}: keyed by the current id; the key object stays the first, the value is the last *)
+Definition args := list (nat * (nat * Z)).
+Fixpoint args_put (i p : nat) (v : Z) (a : args) : args :=
+  match a with
+  | [] => [(i, (p, v))]
+  | (j, (q, w)) :: r => if Nat.eqb i j then (j, (q, v)) :: r else (j, (q, w)) :: args_put i p v r
+  end.
+Definition build_args (idf : nat -> nat) (l : list (nat * Z)) : args :=
+  fold_left (fun a pv => args_put (idf (fst pv)) (fst pv) (snd pv) a) l [].
 
-Definition arg_for (a : args) (p : nat) : M Z :=
-  match nassoc p a with Some v => ret v | None => raise EKeyError end.
+Definition arg_for (idf : nat -> nat) (a : args) (p : nat) : M Z :=
+  match nassoc (idf p) a with Some qv => ret (snd qv) | None => raise EKeyError end.
 
 (* TuplePrior.value_for_arguments: prior members ++ float members sorted by name *)
-Definition tuple_values (a : args) (t : nat) : M inst :=
+Definition tuple_values (idf : nat -> nat) (a : args) (t : nat) : M inst :=
   ob <- gets (fun st => view st t) ;;
   match ob with
   | None => raise EAttribute
@@ -402,7 +443,7 @@ Definition tuple_values (a : args) (t : nat) : M inst :=
                    (filter (fun kv => match snd kv with VConst _ => true | _ => false end) tattrs) in
       vs <- mapM (fun kv : string * value =>
                     match snd kv with
-                    | VPrior p => arg_for a p
+                    | VPrior p => arg_for idf a p
                     | VConst c => ret c
                     | VRef _ => ret 0%Z
                     end)
@@ -418,7 +459,7 @@ Definition raw_inst (v : value) : inst := match v with VConst c => IVal c | _ =>
 Definition is_pm (st : state) (c : nat) : bool :=
   match view st c with Some (k, _) => is_pm_kind k | None => false end.
 
-Fixpoint inst_for (cfg : config) (n : nat) (a : args) (o : nat) : M inst :=
+Fixpoint inst_for (cfg : config) (n : nat) (idf : nat -> nat) (a : args) (o : nat) : M inst :=
   match n with
   | 0 => raise EOther
   | S n' =>
@@ -429,11 +470,11 @@ Fixpoint inst_for (cfg : config) (n : nat) (a : args) (o : nat) : M inst :=
       | Some (KColl, attrs) =>
           fs <- mapM (fun kv : string * value =>
                         match snd kv with
-                        | VPrior p => v <- arg_for a p ;; ret (fst kv, IVal v)
+                        | VPrior p => v <- arg_for idf a p ;; ret (fst kv, IVal v)
                         | VConst c => ret (fst kv, IVal c)
                         | VRef c =>
                             k <- gets (fun st => is_pm st c) ;;
-                            if k then i <- inst_for cfg n' a c ;; ret (fst kv, i)
+                            if k then i <- inst_for cfg n' idf a c ;; ret (fst kv, i)
                             else ret (fst kv, IRaw)
                         end) attrs ;;
           ret (IObj fs)
@@ -441,11 +482,11 @@ Fixpoint inst_for (cfg : config) (n : nat) (a : args) (o : nat) : M inst :=
           let ctor := ctor_names cfg cls in
           let attribute_arguments := filter (fun kv => smemb (fst kv) ctor) attrs in
           tc <- call_direct o DTuple ;; tl <- as_list tc ;;
-          targs <- mapM (fun it => v <- tuple_values a (item_oid it) ;; ret (item_name it, v)) tl ;;
+          targs <- mapM (fun it => v <- tuple_values idf a (item_oid it) ;; ret (item_name it, v)) tl ;;
           mc <- call_direct o DPriorModel ;; ml <- as_list mc ;;
-          margs <- mapM (fun it => v <- inst_for cfg n' a (item_oid it) ;; ret (item_name it, v)) ml ;;
+          margs <- mapM (fun it => v <- inst_for cfg n' idf a (item_oid it) ;; ret (item_name it, v)) ml ;;
           pc <- call_direct o DPrior ;; pl <- as_list pc ;;
-          pargs <- mapM (fun it => v <- arg_for a (leaf_pid (snd it)) ;; ret (item_name it, IVal v)) pl ;;
+          pargs <- mapM (fun it => v <- arg_for idf a (leaf_pid (snd it)) ;; ret (item_name it, IVal v)) pl ;;
           let given := targs ++ margs ++ pargs in
           if forallb (fun kv => smemb (fst kv) ctor) given then
             let fields := map (fun c =>
@@ -467,24 +508,48 @@ Fixpoint inst_for (cfg : config) (n : nat) (a : args) (o : nat) : M inst :=
       end
   end.
 
-Fixpoint limits_ok (cfg : config) (a : args) : bool :=
+Fixpoint limits_ok (limf : nat -> Z * Z) (a : args) : bool :=
   match a with
   | [] => true
-  | (p, v) :: r =>
-      match nassoc p (priors cfg) with
-      | Some (lo, hi) => (Z.leb lo v && Z.leb v hi) && limits_ok cfg r
-      | None => limits_ok cfg r
-      end
+  | (_, (p, v)) :: r => (Z.leb (fst (limf p)) v && Z.leb v (snd (limf p))) && limits_ok limf r
   end.
 
 Definition q_instance (cfg : config) (o : nat) (vec : list Z) : M inst :=
   n <- q_count o ;;
   if negb (Nat.eqb (List.length vec) n) then raise EAssertion
   else
-    l <- q_ordered o ;;
-    let a := combine (map (fun it => leaf_pid (snd it)) l) vec in
-    if negb (limits_ok cfg a) then raise ELimit
-    else inst_for cfg FUEL a o.
+    l <- q_ordered_raw o ;; idf <- gets pid_of ;; limf <- gets plim_of ;;
+    let a := build_args idf (combine (map (fun it : item => leaf_pid (snd it)) l) vec) in
+    if negb (limits_ok limf a) then raise ELimit
+    else inst_for cfg FUEL idf a o.
+
+(* instance_from_unit_vector for uniform priors and units q/4: lower + q * (upper - lower) / 4 *)
+Definition q_unit (cfg : config) (o : nat) (qs : list Z) : M inst :=
+  ec <- call_attr o SConfig 0 ;; _ <- as_list ec ;;
+  n <- q_count o ;;
+  if negb (Nat.eqb n (List.length qs)) then raise EAssertion
+  else
+    l <- q_ordered_raw o ;; idf <- gets pid_of ;; limf <- gets plim_of ;;
+    let objs := map (fun it : item => leaf_pid (snd it)) l in
+    let vals := map (fun pq : nat * Z => (fst (limf (fst pq)) + snd pq * (snd (limf (fst pq)) - fst (limf (fst pq))) / 4)%Z)
+                    (combine objs qs) in
+    inst_for cfg FUEL idf (build_args idf (combine objs vals)) o.
+
+(* all_paths: paths grouped per prior (defaultdict keyed by the prior), in id order *)
+Fixpoint group_put (idf : nat -> nat) (it : item) (g : list (leaf * list path)) : list (leaf * list path) :=
+  match g with
+  | [] => [(snd it, [fst it])]
+  | (k, ps) :: r => if leaf_same idf (snd it) k then (k, ps ++ [fst it]) :: r else (k, ps) :: group_put idf it r
+  end.
+Definition q_allpaths (o : nat) : M answer :=
+  n <- q_count o ;;
+  if Nat.eqb n 0 then ret (AGroups [])
+  else
+    l <- q_paths_raw o ;; idf <- gets pid_of ;;
+    match fold_left (fun g it => group_put idf it g) l [] with
+    | [] => raise EOther
+    | g => ret (AGroups (map snd (sort_by (fun a b : leaf * list path => Nat.leb (leaf_id idf (fst a)) (leaf_id idf (fst b))) g)))
+    end.
 
 (* object_for_path through getattr *)
 Fixpoint resolve (st : state) (o : nat) (p : path) : option nat :=
@@ -520,7 +585,8 @@ Definition q_info (o : nat) : M answer :=
   n <- q_count o ;;
   pc <- call_pit o SParam 2 ;; pl <- as_list pc ;;
   ents <- mapM (fun it : item => es <- mapM (param_entry o) (prefixes_from [] (fst it)) ;; ret (List.concat es)) pl ;;
-  ret (AInfo il n (List.concat ents)).
+  idf <- gets pid_of ;;
+  ret (AInfo (out_items idf il) n (List.concat ents)).
 
 Definition run_query (cfg : config) (o : nat) (q : query) : M answer :=
   match q with
@@ -530,6 +596,8 @@ Definition run_query (cfg : config) (o : nat) (q : query) : M answer :=
   | QInstance v => i <- q_instance cfg o v ;; ret (AInst i)
   | QInfo => q_info o
   | QModels cls izd => l <- q_models o cls izd ;; ret (AItems l)
+  | QUnit qs => i <- q_unit cfg o qs ;; ret (AInst i)
+  | QAllPaths => q_allpaths o
   end.
 
 (* ------------------------------------------------------------------ freeze / unfreeze *)
@@ -639,21 +707,23 @@ Definition op_del (o : nat) (name : string) : M unit :=
 Definition op_failwalk (cfg : config) (o : nat) : M unit :=
   fun st =>
     if cleanup cfg || memb o (inflight st) then (st, Exn ETypeError)
-    else (mkState (heap st) (o :: inflight st), Exn ETypeError).
+    else (mkState (heap st) (o :: inflight st) (ptab st), Exn ETypeError).
 
 (* ------------------------------------------------------------------ new / copy *)
+Definition new_obj (st : state) (k : kind) (a : list (string * value)) (ni : nat) : obj :=
+  mkObj k a ni (1000 + List.length (heap st)) false [].
 Definition op_new (k : kind) (a : list (string * value)) (ni : nat) : M unit :=
   fun st =>
     match k with
     | KModel _ =>
         if existsb (fun kv => frozen_pm st (snd kv)) a then (st, Exn EAssertion)
-        else (mkState (heap st ++ [mkObj k a ni false []]) (inflight st), Ok tt)
-    | _ => (mkState (heap st ++ [mkObj k a ni false []]) (inflight st), Ok tt)
+        else (mkState (heap st ++ [new_obj st k a ni]) (inflight st) (ptab st), Ok tt)
+    | _ => (mkState (heap st ++ [new_obj st k a ni]) (inflight st) (ptab st), Ok tt)
     end.
 
-(* copy.deepcopy: preorder, memoised, attribute order; __getstate__ drops the cache and
-   keeps `_is_frozen` *)
-Definition cstate := (list obj * list (nat * nat))%type.
+(* copy.deepcopy: preorder, memoised, attribute order; __getstate__ drops the cache and keeps
+   `_is_frozen`; Prior objects are copied too (new object, same id and limits) *)
+Record cstate := mkC { cheap : list obj; cmemo : list (nat * nat); cptab : list (nat * (Z * Z)); cpmemo : list (nat * nat) }.
 
 Fixpoint copy_attrs (f : value -> cstate -> cstate * value) (l : list (string * value)) (cs : cstate)
   : cstate * list (string * value) :=
@@ -666,29 +736,122 @@ Fixpoint copy_attrs (f : value -> cstate -> cstate * value) (l : list (string * 
 
 Fixpoint copy_val (n : nat) (v : value) (cs : cstate) : cstate * value :=
   match v with
+  | VConst _ => (cs, v)
+  | VPrior p =>
+      match nassoc p (cpmemo cs) with
+      | Some p' => (cs, VPrior p')
+      | None =>
+          match nth_error (cptab cs) p with
+          | None => (cs, v)
+          | Some e => (mkC (cheap cs) (cmemo cs) (cptab cs ++ [e]) ((p, List.length (cptab cs)) :: cpmemo cs),
+                       VPrior (List.length (cptab cs)))
+          end
+      end
   | VRef c =>
-      match nassoc c (snd cs) with
+      match nassoc c (cmemo cs) with
       | Some c' => (cs, VRef c')
       | None =>
           match n with
           | 0 => (cs, v)
           | S n' =>
-              match nth_error (fst cs) c with
+              match nth_error (cheap cs) c with
               | None => (cs, v)
               | Some ob =>
-                  let id := List.length (fst cs) in
-                  let cs1 := (fst cs ++ [with_cache ob []], (c, id) :: snd cs) in
+                  let id := List.length (cheap cs) in
+                  let cs1 := mkC (cheap cs ++ [with_cache ob []]) ((c, id) :: cmemo cs) (cptab cs) (cpmemo cs) in
                   let (cs2, a') := copy_attrs (copy_val n') (oattrs ob) cs1 in
-                  ((update (fst cs2) id (with_cache (with_attrs ob a') []), snd cs2), VRef id)
+                  (mkC (update (cheap cs2) id (with_cache (with_attrs ob a') [])) (cmemo cs2) (cptab cs2) (cpmemo cs2), VRef id)
               end
           end
       end
-  | _ => (cs, v)
   end.
 
 Definition op_copy (o : nat) : M unit :=
-  fun st => let (cs, _) := copy_val FUEL (VRef o) (heap st, []) in
-            (mkState (fst cs) (inflight st), Ok tt).
+  fun st => let (cs, _) := copy_val FUEL (VRef o) (mkC (heap st) [] (ptab st) []) in
+            (mkState (cheap cs) (inflight st) (cptab cs), Ok tt).
+
+(* Collection.__setitem__: `obj.id = getattr(self, str(key)).id` -- the id of whatever sat under
+   the key is written INTO the assigned object (a Prior shared with other models included) *)
+Definition set_pid (p i : nat) : M unit :=
+  fun st => match nth_error (ptab st) p with
+            | Some (_, l) => (mkState (heap st) (inflight st) (update (ptab st) p (i, l)), Ok tt)
+            | None => (st, Ok tt)
+            end.
+Definition value_id (st : state) (v : value) : option nat :=
+  match v with
+  | VPrior q => Some (pid_of st q)
+  | VRef c => match get st c with Some cb => Some (oidn cb) | None => None end
+  | VConst _ => None
+  end.
+
+Definition op_setitem (o : nat) (key : string) (v : value) : M unit :=
+  ob <- gets (fun st => get st o) ;;
+  match ob with
+  | None => raise EAttribute
+  | Some ob =>
+      match okind ob with
+      | KColl =>
+          if ofrozen ob then raise EAssertion
+          else
+            old <- gets (fun st => match sassoc key (oattrs ob) with Some w => value_id st w | None => None end) ;;
+            _ <- match old, v with
+                 | Some i, VPrior p => set_pid p i
+                 | Some i, VRef c =>
+                     fz <- gets (fun st => frozen_pm st v) ;;
+                     if fz then raise EAssertion else modify c (fun cb => with_oidn cb i)
+                 | _, _ => ret tt
+                 end ;;
+            modify o (fun ob => with_attrs ob (set_attr key v (oattrs ob)))
+      | _ => raise EAttribute
+      end
+  end.
+
+(* mapper_from_prior_arguments({p: p for p in self.priors}) -> gaussian_prior_model_for_arguments:
+   a new model is built and thrown away; what remains is what it did to `self` *)
+Fixpoint derive (n : nat) (idf : nat -> nat) (a : list nat) (o : nat) : M unit :=
+  match n with
+  | 0 => raise EOther
+  | S n' =>
+      vw <- gets (fun st => view st o) ;;
+      let need := fun p : nat => if memb (idf p) a then ret tt else raise EKeyError in
+      match vw with
+      | None => raise EAttribute
+      | Some (KTuple, _) => ret tt
+      | Some (KColl, attrs) =>
+          _ <- mapM (fun kv : string * value =>
+                       match snd kv with
+                       | VPrior p => need p
+                       | VConst _ => ret tt
+                       | VRef c => k <- gets (fun st => is_pm st c) ;; if k then derive n' idf a c else ret tt
+                       end) attrs ;;
+          ret tt
+      | Some (KModel _, attrs) =>
+          _ <- (if derive_thaws then unfreeze FUEL o else ret tt) ;;
+          _ <- mapM (fun kv : string * value => match snd kv with VPrior p => need p | _ => ret tt end) attrs ;;
+          _ <- mapM (fun kv : string * value =>
+                       match snd kv with
+                       | VRef c =>
+                           tv <- gets (fun st => view st c) ;;
+                           match tv with
+                           | Some (KTuple, tattrs) =>
+                               _ <- mapM (fun m : string * value => match snd m with VPrior p => need p | _ => ret tt end) tattrs ;;
+                               ret tt
+                           | _ => ret tt
+                           end
+                       | _ => ret tt
+                       end) attrs ;;
+          _ <- mapM (fun kv : string * value =>
+                       match snd kv with
+                       | VRef c => k <- gets (fun st => is_pm st c) ;; if k then derive n' idf a c else ret tt
+                       | _ => ret tt
+                       end) attrs ;;
+          ret tt
+      end
+  end.
+
+Definition op_derive (o : nat) : M unit :=
+  c <- call_attr o SPrior 1 ;; l <- as_list c ;; idf <- gets pid_of ;;
+  derive FUEL idf (map (fun it : item => leaf_id idf (snd it)) l) o.
 
 (* ------------------------------------------------------------------ operations *)
 Inductive op :=
@@ -697,6 +860,8 @@ Inductive op :=
 | OFreeze (o : nat)
 | OUnfreeze (o : nat)
 | OSet (o : nat) (name : string) (v : value)
+| OSetItem (o : nat) (key : string) (v : value)
+| ODerive (o : nat)
 | OAppend (o : nat) (v : value)
 | ODel (o : nat) (name : string)
 | OCopy (o : nat)
@@ -711,13 +876,15 @@ Definition step (cfg : config) (x : op) : M answer :=
   | OFreeze o => unit_ans (freeze FUEL o)
   | OUnfreeze o => unit_ans (unfreeze FUEL o)
   | OSet o name v => unit_ans (op_set o name v)
+  | OSetItem o key v => unit_ans (op_setitem o key v)
+  | ODerive o => unit_ans (op_derive o)
   | OAppend o v => unit_ans (op_append o v)
   | ODel o name => unit_ans (op_del o name)
   | OCopy o => unit_ans (op_copy o)
   | OFailWalk o => unit_ans (op_failwalk cfg o)
   end.
 
-Definition init : state := mkState [] [].
+Definition init (cfg : config) : state := mkState [] [] (priors cfg).
 
 Fixpoint run (cfg : config) (ops : list op) (st : state) : state * list (res answer) :=
   match ops with
@@ -753,6 +920,7 @@ Definition answer_eqb (a b : answer) : bool :=
   | AItems l, AItems m => list_eqb item_eqb l m
   | AInst i, AInst j => inst_eqb i j
   | AInfo a1 n1 b1, AInfo a2 n2 b2 => list_eqb item_eqb a1 a2 && Nat.eqb n1 n2 && list_eqb pent_eqb b1 b2
+  | AGroups g, AGroups h => list_eqb (list_eqb path_eqb) g h
   | _, _ => false
   end.
 Definition outcome_eqb (a b : res answer) : bool :=
@@ -770,6 +938,7 @@ Inductive case := Case (classes : list (list string)) (priors : list (nat * (Z *
 Definition check_case (c : case) : bool :=
   match c with
   | Case cl pr ops outs fz =>
-      let (st, got) := run (mkConfig cl pr wrapper_cleanup) ops init in
+      let cfg := mkConfig cl pr wrapper_cleanup in
+      let (st, got) := run cfg ops (init cfg) in
       list_eqb outcome_eqb got outs && list_eqb Bool.eqb (map ofrozen (heap st)) fz
   end.
